@@ -1,4 +1,6 @@
 """C11 - copy_from yields an equal, fully independent message (DESIGN 3/C11)."""
+import random
+
 from .. import schema as S, wire as W, values as V, pyrt
 from ..harness import Acc
 from . import common as C
@@ -64,9 +66,19 @@ def check_pair(acc, sch, w, mod, tname, tags, va, vb, rng):
     # performs the fewest operations (arms selected through the discriminator only, defaults never touched) and the
     # source is NOT read before copy_from, so nothing is materialised by a getter. Expected value: the reference's.
     sparse = rng.random() < 0.5
+    # a third way: the source is a long-lived decode target - it received va's, then vb's, then va's encoding again
+    # (a union returns to an arm it held before, arrays shrink and grow); it is observed before the copy
+    decoded = rng.random() < 0.25
+    if decoded:
+        sparse = False
     try:
         a, b = cls(), cls()
-        pyrt.build(a, sch, tname, va, sparse)
+        if decoded:
+            for vv in (va, vb, va):
+                a.decode(w.encode(tname, vv, '<')[0], '<')
+            acc.count('sources_with_a_decode_history')
+        else:
+            pyrt.build(a, sch, tname, va, sparse)
         pyrt.build(b, sch, tname, vb)
         if sparse:
             ref = cls()
@@ -77,7 +89,7 @@ def check_pair(acc, sch, w, mod, tname, tags, va, vb, rng):
     except Exception:  # noqa - C01/C10's business
         acc.count('setup_raised_not_judged_here')
         return
-    acc.count('sparse_unobserved_sources' if sparse else 'dense_observed_sources')
+    acc.count('sparse_unobserved_sources' if sparse else 'decoded_observed_sources' if decoded else 'dense_observed_sources')
     try:
         b.copy_from(a)
     except Exception as e:  # noqa
@@ -230,8 +242,10 @@ def run_shard(spec):
             for n in names:
                 if spec['kind'] == 'replay':
                     ex = spec['extra']
-                    check_pair(acc, sch, w, mod, n, ['replay'], C.unjson(ex['value']),
-                               C.unjson(ex.get('b_before', ex['value'])), rng)
+                    # a replay tries every way of preparing the source, several times (the mutation pass draws too)
+                    for k in range(24):
+                        check_pair(acc, sch, w, mod, n, ['replay'], C.unjson(ex['value']),
+                                   C.unjson(ex.get('b_before', ex['value'])), random.Random(k))
                     continue
                 vals = [v for _, v in V.value_set(sch, w, n, rng, nrand=spec['nrand'], aligned_greedy=False)]
                 if not interesting(sch, n):
